@@ -49,6 +49,7 @@ type ReadFault struct {
 }
 
 type State struct {
+	kseq uint64 // order-sensitive hash of the operations that changed the kernel's state
 	files      map[*os.File]*fileInfo
 	Fds        []int // every inotify fd created in this execution
 	Calls      []Call
@@ -96,13 +97,34 @@ func (s *State) log(c Call) {
 		c.Step = sc.Steps
 	}
 	s.Calls = append(s.Calls, c)
+	if c.Err == "" && (c.Kind == "add" || c.Kind == "rm" || c.Kind == "close" || c.Kind == "init") {
+		s.NoteKernelOp(fmt.Sprint(c.Kind, c.Path, c.Mask, c.Wd))
+	}
 	// what the calling thread learnt (descriptor numbers are left out: they depend on closes still in flight)
 	vsched.Observe(c.Kind, c.Path, c.Mask, c.Wd, c.Err, c.N)
+}
+
+// NoteKernelOp folds an operation that changes what the kernel holds (watch set, queued notifications)
+// into an order-sensitive hash: the kernel's state is a function of the order of these operations, and the
+// state key has no other view of the queue's content or of watches the library's tables do not show.
+func (s *State) NoteKernelOp(desc string) {
+	h := s.kseq
+	if h == 0 {
+		h = 1469598103934665603
+	}
+	for i := 0; i < len(desc); i++ {
+		h ^= uint64(desc[i])
+		h *= 1099511628211
+	}
+	h ^= 0xff
+	h *= 1099511628211
+	s.kseq = h
 }
 
 // KeyPart renders the seam's part of the global state key.
 func (s *State) KeyPart() string {
 	var b strings.Builder
+	fmt.Fprintf(&b, "k%x;", s.kseq)
 	for i, fd := range s.Fds {
 		n := -2
 		if !s.fdClosed(fd) {
